@@ -134,6 +134,7 @@ def run(rep, info, model, tier, seed):
                     reqs.append([1, s, bytes([a, b])])
                     metas.append((s, bytes([a, b])))
     ans = model.run(reqs)
+    rep.watch_extraction(model, reqs[::997] + [[2, b'h\xe2\x82\xac'], [2, b'\xed\xa0\x80']])
     nA = 0
     for (s, bs), a in zip(metas, ans):
         st, valid, cur = impl_validate(s, bs)
